@@ -1,0 +1,8 @@
+//go:build !verif
+
+// Package verifhook provides named instrumentation points for the runtime-monitoring
+// harness in /verif. Without the `verif` build tag every point is an empty function.
+package verifhook
+
+// Point marks a named instrumentation point. It does nothing in normal builds.
+func Point(name string) {}
